@@ -2686,7 +2686,7 @@ func lemmaForwardSession(raw *rawEnvelope) (e *Session, e3 *Session, accepted bo
 //@ func (*Client).ProcessCommand :: (c, ctx, cmd) (result0, result1)
 //@   props C04 C05 C06
 //@   requires c != nil && ctx != nil
-//@   panics only-if true  ## nil command / empty id panic inside the channel; the summary of getOrBuildChannel may modify anything, so the condition cannot be related to the entry state here
+//@   panics only-if cmd == nil || cmd.ID == ""
 //@   modifies everything
 //@   ensures [C05] @ownresponse result1 == nil ==> result0 != nil && result0.ID == cmd.ID
 //@   checks [C04,C05] @atmostonce ncalls("(*channel).ProcessCommand") <= 1
